@@ -22,6 +22,11 @@ pub enum Mut {
     DupSpan(u16, u16),
     /// replace byte with another digit if it is a digit (length/integer tweak)
     Digit(u16, u8),
+    /// rewrite the nearest string length prefix as L + m * 2^k (k in {8,16,32,64}): a decoder with wrapping
+    /// arithmetic would see the right length again
+    WrapLen(u16, u8, u8),
+    /// prepend this many zeros / digits to the nearest digit run
+    PadDigits(u16, u8, u8),
 }
 
 #[derive(Clone, Debug, Serialize, Deserialize)]
@@ -62,6 +67,36 @@ pub fn apply_muts(doc: &mut Vec<u8>, muts: &[Mut]) {
                 doc.extend_from_slice(&span);
                 doc.extend_from_slice(&tail);
             }
+            Mut::WrapLen(i, m, k) => {
+                if !doc.is_empty() {
+                    let at = idx(*i, doc.len());
+                    // find "<digits>:" at or after `at`
+                    let mut p = at;
+                    while p < doc.len() && !doc[p].is_ascii_digit() {
+                        p += 1;
+                    }
+                    let s = p;
+                    while p < doc.len() && doc[p].is_ascii_digit() {
+                        p += 1;
+                    }
+                    if s < p && p < doc.len() && doc[p] == b':' && p - s <= 18 {
+                        let l: u128 = std::str::from_utf8(&doc[s..p]).unwrap().parse().unwrap_or(0);
+                        let shift = [8u32, 16, 32, 64][(*k % 4) as usize];
+                        let v = l + ((1 + (*m % 3)) as u128) * (1u128 << shift);
+                        let rep = v.to_string().into_bytes();
+                        doc.splice(s..p, rep);
+                    }
+                }
+            }
+            Mut::PadDigits(i, n, d) => {
+                if !doc.is_empty() {
+                    let at = idx(*i, doc.len());
+                    if let Some(p) = (at..doc.len()).find(|p| doc[*p].is_ascii_digit()) {
+                        let pad: Vec<u8> = std::iter::repeat(b'0' + (d % 10)).take(1 + (*n % 24) as usize).collect();
+                        doc.splice(p..p, pad);
+                    }
+                }
+            }
             Mut::Digit(i, d) => {
                 if !doc.is_empty() {
                     // nearest digit at or after the position
@@ -91,6 +126,8 @@ fn mut_strategy() -> BoxedStrategy<Mut> {
         2 => (any::<u16>(), delim_byte()).prop_map(|(i, b)| Mut::Replace(i, b)),
         1 => (any::<u16>(), any::<u16>()).prop_map(|(a, b)| Mut::DupSpan(a, b)),
         2 => (any::<u16>(), 0u8..10).prop_map(|(i, d)| Mut::Digit(i, d)),
+        1 => (any::<u16>(), any::<u8>(), any::<u8>()).prop_map(|(i, m, k)| Mut::WrapLen(i, m, k)),
+        1 => (any::<u16>(), any::<u8>(), 0u8..10).prop_map(|(i, n, d)| Mut::PadDigits(i, n, d)),
     ]
     .boxed()
 }
@@ -207,6 +244,7 @@ pub fn check(case: &Case) -> Outcome {
     o.class_if(r == Some(false), "reference-rejects");
     o.class_if(g, "rdest-accepts");
     o.class_if(!case.muts.is_empty(), "mutated");
+    o.class_if(case.muts.iter().any(|m| matches!(m, Mut::WrapLen(..))), "length-rewritten-modulo-2^k");
     o.class_if(case.vals.iter().any(|v| v.has_dup_keys()), "duplicate-keys");
     o
 }
